@@ -11,7 +11,7 @@ structures found in the Go `Encode/Decode` bodies:
   opt      `WriteBool(x != nil); if x != nil { … }`            (pointer-style optional)
   optD     `WriteBool(x != zero); if x != zero { … }`          (sentinel-style optional)
   arr      `WriteVarInt(len(xs)); for … { … }` with the decoder's negative/maximum checks
-  sw       `WriteVarInt(action); switch action { … }`           (tagged union)
+  sw       `WriteVarInt(action); switch action { … }`           (tagged union, finitely many cases + default)
   fail     `default: return errInvalidAction`
 
 Values are untyped S-expressions (`Val`); `Schema.wf` says which values a schema can carry.
@@ -63,7 +63,23 @@ inductive Prim where
   | bytes17 (ext : Bool)    -- WriteBytes17 _ ext / ReadBytes17
   | fixed (n : Nat)         -- n raw bytes (io.ReadFull into make([]byte, n))
   | key                     -- WriteKey / ReadKey
+  | minKey                  -- WriteMinimalKey / ReadMinimalKey (namespace omitted when it is `minecraft`)
   | blob (len : Bytes → Option Nat)   -- self-delimiting opaque blob; value = its wire bytes
+
+/-- `key.Minimal` -/
+def minimalKey (k : Key) : Bytes := if k.ns = minecraftNs then k.val else keyString k
+
+/-- `ReadMinimalKey` before the fix: the whole string became the value of a `minecraft` key -/
+def readMinimalKeyDefective (bs : Bytes) : Rd Key :=
+  match readString bs with
+  | .ok (s, r) => .ok (⟨minecraftNs, s⟩, r)
+  | .error e => .error e
+
+/-- `make([]byte, length)` of a length-prefixed reader: performed after the `length < 0` / `length > cap` checks -/
+def lenAlloc (cap : Nat) (bs : Bytes) : Nat :=
+  match readVarInt bs with
+  | .ok (len, _) => if len < 0 then 0 else if len > (cap : Int) then 0 else len.toNat
+  | .error _ => 0
 
 namespace Prim
 
@@ -81,6 +97,7 @@ def enc : Prim → Val → Bytes
   | .bytes17 _, v => writeBytes17 v.getBytes
   | .fixed _, v => v.getBytes
   | .key, v => writeKey ⟨v.fst.getBytes, v.snd.getBytes⟩
+  | .minKey, v => writeBytes (minimalKey ⟨v.fst.getBytes, v.snd.getBytes⟩)
   | .blob _, v => v.getBytes
 
 /-- does the Go writer accept the value (it returns an error otherwise) -/
@@ -110,6 +127,7 @@ def dec : Prim → Bytes → Rd Val
   | .bytes17 _, bs => mapRd .bytes (readBytes17 bs)
   | .fixed n, bs => mapRd .bytes (readFull n bs)
   | .key, bs => mapRd (fun k => .pair (.bytes k.ns) (.bytes k.val)) (readKey bs)
+  | .minKey, bs => mapRd (fun s => let k := parseKey s; .pair (.bytes k.ns) (.bytes k.val)) (readString bs)
   | .blob len, bs =>
     match len bs with
     | Option.none => .error .invalid
@@ -119,22 +137,13 @@ def dec : Prim → Bytes → Rd Val
     the length checks, before `io.ReadFull`), and whether the read then succeeded.  Fixed-width
     scalars allocate nothing that depends on the input. -/
 def alloc : Prim → Bytes → Nat
-  | .str max, bs | .strNE max, bs =>
-    match readVarInt bs with
-    | .ok (len, _) => if len < 0 then 0 else if len > (max * 4 : Nat) then 0 else len.toNat
-    | .error _ => 0
-  | .bytes max, bs =>
-    match readVarInt bs with
-    | .ok (len, _) => if len < 0 then 0 else if len > (max : Nat) then 0 else len.toNat
-    | .error _ => 0
+  | .str max, bs | .strNE max, bs => lenAlloc (max * 4) bs
+  | .bytes max, bs => lenAlloc max bs
   | .bytes17 _, bs =>
     match readExtShort bs with
     | .ok (len, _) => if len > forgeMaxArrayLength then 0 else len
     | .error _ => 0
-  | .key, bs =>
-    match readVarInt bs with
-    | .ok (len, _) => if len < 0 then 0 else if len > (defaultMaxStringSize * 4 : Nat) then 0 else len.toNat
-    | .error _ => 0
+  | .key, bs | .minKey, bs => lenAlloc (defaultMaxStringSize * 4) bs
   | .fixed n, _ => n
   | .uuid, _ => 16
   | .blob len, bs => match len bs with | Option.some n => min n bs.length | Option.none => bs.length
@@ -145,7 +154,7 @@ def cap : Prim → Nat
   | .str max | .strNE max => max * 4
   | .bytes max => max
   | .bytes17 _ => forgeMaxArrayLength
-  | .key => defaultMaxStringSize * 4
+  | .key | .minKey => defaultMaxStringSize * 4
   | .fixed n => n
   | .uuid => 16
   | _ => 0
@@ -166,7 +175,11 @@ inductive Schema where
   | opt (present : Bool) (s : Schema)
   | optD (d : Val) (s : Schema)
   | arr (neg : NegMode) (max : Option Nat) (s : Schema)
-  | sw (tag : Prim) (body : Int → Schema)
+  | sw (tag : Prim) (n : Nat) (body : Fin n → Schema) (dflt : Schema)   -- tag t selects `body t` for 0 ≤ t < n, else `dflt`
+
+/-- the case a tag selects -/
+def Schema.pick (n : Nat) (body : Fin n → Schema) (dflt : Schema) (t : Int) : Schema :=
+  if h : 0 ≤ t ∧ t.toNat < n then body ⟨t.toNat, h.2⟩ else dflt
 
 def overMax : Option Nat → Int → Bool
   | Option.none, _ => false
@@ -185,7 +198,10 @@ def encode : Schema → Val → Bytes
     | _ => writeBool (!present)
   | .optD d s, v => if v = d then writeBool false else writeBool true ++ encode s v
   | .arr _ _ s, v => writeList (encode s) v.elems
-  | .sw tag body, v => tag.enc v.fst ++ encode (body v.fst.getInt) v.snd
+  | .sw tag n body dflt, v =>
+    tag.enc v.fst ++
+      (if h : 0 ≤ v.fst.getInt ∧ v.fst.getInt.toNat < n then encode (body ⟨v.fst.getInt.toNat, h.2⟩) v.snd
+       else encode dflt v.snd)
 
 /-- would the Go encoder return an error -/
 def encOk : Schema → Val → Bool
@@ -196,7 +212,10 @@ def encOk : Schema → Val → Bool
   | .opt _ s, v => match v with | .some x => encOk s x | _ => true
   | .optD d s, v => if v = d then true else encOk s v
   | .arr _ _ s, v => v.elems.all (encOk s)
-  | .sw tag body, v => tag.encOk v.fst && encOk (body v.fst.getInt) v.snd
+  | .sw tag n body dflt, v =>
+    tag.encOk v.fst &&
+      (if h : 0 ≤ v.fst.getInt ∧ v.fst.getInt.toNat < n then encOk (body ⟨v.fst.getInt.toNat, h.2⟩) v.snd
+       else encOk dflt v.snd)
 
 def decode : Schema → Bytes → Rd Val
   | .unit, bs => .ok (.unit, bs)
@@ -230,10 +249,11 @@ def decode : Schema → Bytes → Rd Val
       else match readN (decode s) n.toNat r with
         | .error e => .error e
         | .ok (xs, r') => .ok (Val.ofList xs, r')
-  | .sw tag body, bs =>
+  | .sw tag n body dflt, bs =>
     match tag.dec bs with
     | .error e => .error e
-    | .ok (t, r) => match decode (body t.getInt) r with
+    | .ok (t, r) =>
+      match (if h : 0 ≤ t.getInt ∧ t.getInt.toNat < n then decode (body ⟨t.getInt.toNat, h.2⟩) r else decode dflt r) with
       | .error e => .error e
       | .ok (x, r') => .ok (.pair t x, r')
 
